@@ -29,13 +29,13 @@ func runC18(c *engine.Ctx, tier string) {
 func listEntryFacts(c *engine.Ctx, id, rel string) {
 	o := c.Custom(id, "K-guard(custom)", "append of a new list entry ⇐ foundkeys < len(keyMap); key mismatch ⇒ foundkeys := 0 and continue with the next entry; sort comparator of PrunePathValues is Path < Path; BuildTree ranges over PrunePathValues(values, false)",
 		"entries of one list are contiguous in the sorted input, so 'the last matching entry, or a new one when not all keys matched' identifies an entry by its full key set")
-	defer o.Done(3)
+	defer o.Done(5)
 	paths, err := c.A.PathsOpt(rel, engine.PathOpts{NoInline: true})
 	if err != nil {
 		o.Undecided(rel, err.Error())
 		return
 	}
-	appended, reset, cmp := 0, 0, 0
+	appended, reset, cmp, keys, member := 0, 0, 0, 0, 0
 	for _, p := range paths {
 		isAdd := strings.HasSuffix(p.Root.Name(), ".addPathToTree") && p.Lit == nil
 		for i := range p.Events {
@@ -75,6 +75,42 @@ func listEntryFacts(c *engine.Ctx, id, rel string) {
 					return
 				}
 			}
+			// the key map: name = text between '[' and the FIRST '=', value = text from there to the first ']'
+			if isAdd && e.Kind == engine.EvWrite && e.Local == nil && strings.HasPrefix(e.LHS, "make(map[string]interface{})@") && strings.Contains(e.LHS, "[") {
+				keys++
+				o.Eval(1)
+				at := strings.Index(e.LHS, ")@")
+				ks := e.LHS[at+2:]
+				ks = ks[strings.Index(ks, "[")+1:]
+				if k := strings.Index(ks, "["); k > 0 {
+					ks = ks[:k]
+				}
+				tl := strings.TrimPrefix(rel, "pkg/") + "."
+				wantKey := ks + "[(strings.Index(" + ks + "," + tl + "bracketsq) + 1):strings.Index(" + ks + "," + tl + "equals)]"
+				wantVal := ks + "[(strings.Index(" + ks + "," + tl + "equals) + 1):strings.Index(" + ks + "," + tl + "brktclose)]"
+				if !strings.HasSuffix(e.LHS, "["+wantKey+"]") || e.RHS != wantVal {
+					o.Fail(&engine.Violation{Key: rel + ".addPathToTree|key split", Pos: c.P.Pos(e.Pos), Func: p.Root.Name(),
+						Msg: "a list key is not cut as name = [ … first '=' and value = first '=' … first ']': key values containing '=' (or the key name) are truncated, so distinct entries merge or one entry splits"})
+					return
+				}
+			}
+			// pruning: a value is skipped when it lies beneath ANY recorded deleted root
+			if p.Lit == nil && strings.HasSuffix(p.Root.Name(), ".PrunePathValues") && e.Kind == engine.EvCall && e.CalleeName == subtreeHelper && len(e.Args) == 2 {
+				member++
+				o.Eval(1)
+				var le *engine.Event
+				for j := i - 1; j >= 0; j-- {
+					if x := &p.Events[j]; x.Kind == engine.EvLoopEnter && x.LoopID == e.Loops {
+						le = x
+						break
+					}
+				}
+				if le == nil || !strings.HasPrefix(le.Range, "?deletedSubtrees") && !strings.Contains(le.Range, "eleted") || e.Args[1] != "elem("+le.Range+")" || !strings.HasSuffix(e.Args[0], ".Path") {
+					o.Fail(&engine.Violation{Key: rel + ".PrunePathValues|membership", Pos: c.P.Pos(e.Pos), Func: p.Root.Name(),
+						Msg: "the subtree test of pruning is not made against every recorded deleted root (second operand " + e.Args[1] + "): a deleted subtree is not contiguous in lexicographic order ('-' and '.' sort before '/'), so testing only the latest root lets values beneath an earlier tombstone survive"})
+					return
+				}
+			}
 			if p.Lit != nil && strings.HasSuffix(p.Root.Name(), ".PrunePathValues") && e.Kind == engine.EvReturn && len(e.Results) == 1 {
 				cmp++
 				o.Eval(1)
@@ -93,5 +129,11 @@ func listEntryFacts(c *engine.Ctx, id, rel string) {
 	}
 	if cmp > 0 {
 		o.Site(rel + ": comparator Path < Path")
+	}
+	if keys > 0 {
+		o.Site(rel + ": key name/value cut at the first '=' and first ']'")
+	}
+	if member > 0 {
+		o.Site(rel + ": pruning tests membership against every recorded deleted root")
 	}
 }
